@@ -36,29 +36,29 @@ type series struct {
 
 	Members []string `json:"members,omitempty"`
 
-	Values       []float64       `json:"values,omitempty"` // in map order
-	Count        int             `json:"count,omitempty"`
-	SampledCount float64         `json:"sampled_count,omitempty"`
-	Mean         float64         `json:"mean,omitempty"`
-	Median       float64         `json:"median,omitempty"`
-	Min          float64         `json:"min,omitempty"`
-	Max          float64         `json:"max,omitempty"`
-	StdDev       float64         `json:"std_dev,omitempty"`
-	Sum          float64         `json:"sum,omitempty"`
-	SumSquares   float64         `json:"sum_squares,omitempty"`
-	Pcts         []pctVal        `json:"pcts,omitempty"`
+	Values       []float64 `json:"values,omitempty"` // in map order
+	Count        int       `json:"count,omitempty"`
+	SampledCount float64   `json:"sampled_count,omitempty"`
+	Mean         float64   `json:"mean,omitempty"`
+	Median       float64   `json:"median,omitempty"`
+	Min          float64   `json:"min,omitempty"`
+	Max          float64   `json:"max,omitempty"`
+	StdDev       float64   `json:"std_dev,omitempty"`
+	Sum          float64   `json:"sum,omitempty"`
+	SumSquares   float64   `json:"sum_squares,omitempty"`
+	Pcts         []pctVal  `json:"pcts,omitempty"`
 	// IsHist / Hist / histF are the STATEMENT's view of a histogram timer, computed by histModel from the
 	// gsd_histogram: tag, the values and the configured bucket limit - never from the flushed struct.
-	IsHist   bool            `json:"is_hist,omitempty"`
-	Hist     map[string]int  `json:"hist,omitempty"` // threshold (formatted 'f', "+Inf") -> cumulative count
-	histF    map[float64]int // same, keyed by the float
+	IsHist bool            `json:"is_hist,omitempty"`
+	Hist   map[string]int  `json:"hist,omitempty"` // threshold (formatted 'f', "+Inf") -> cumulative count
+	histF  map[float64]int // same, keyed by the float
 	// RealHistNil / RealHist are what the real aggregator left in Timer.Histogram; only buildMap reads them, so
 	// that the backends see the flushed struct exactly as it is.
 	RealHistNil bool           `json:"real_hist_nil,omitempty"`
 	RealHist    map[string]int `json:"real_hist,omitempty"`
 	realHistF   map[float64]int
-	Timestamp    int64           `json:"-"`
-	TagsKey      string          `json:"-"`
+	Timestamp   int64  `json:"-"`
+	TagsKey     string `json:"-"`
 }
 
 func fmtBound(b float64) string {
@@ -207,6 +207,7 @@ func buildMap(ss []*series) *gostatsd.MetricMap {
 type workload struct {
 	Percentiles []float64              `json:"percentiles"`
 	Disabled    gostatsd.TimerSubtypes `json:"disabled"`
+	MaskKind    string                 `json:"mask_kind"`
 	HistLimit   uint32                 `json:"hist_limit"`
 	Rounds      int                    `json:"rounds"`
 	IntervalS   float64                `json:"interval_s"`
@@ -302,17 +303,55 @@ var sources = []string{"", "", "10.0.0.1", "10.0.0.2", "host-a", "ns/pod-1", "i-
 var histTags = []string{"gsd_histogram:1_5_10", "gsd_histogram:0.5_2.5_100_1000", "gsd_histogram:-1_0_250.75", "gsd_histogram:10", "gsd_histogram:-1000_-10_0_10_1000_100000"}
 var pctLists = [][]float64{nil, {90}, {50, 99}, {95, -10}, {99.9}}
 
-func randomMask(rng *rand.Rand) gostatsd.TimerSubtypes {
-	var d gostatsd.TimerSubtypes
-	switch k := rng.Intn(10); {
-	case k < 4:
-		return d
-	case k == 9:
-		return gostatsd.TimerSubtypes{Lower: true, LowerPct: true, Upper: true, UpperPct: true, Count: true, CountPct: true, CountPerSecond: true, Mean: true, MeanPct: true, Median: true, StdDev: true, Sum: true, SumPct: true, SumSquares: true, SumSquaresPct: true}
+// maskFromBits: bit i set = sub-metric i disabled; bits 0..8 are the nine plain aggregations, 9..14 the
+// percentile-derived ones.
+func maskFromBits(b uint) gostatsd.TimerSubtypes {
+	on := func(i uint) bool { return b&(1<<i) != 0 }
+	return gostatsd.TimerSubtypes{Lower: on(0), Upper: on(1), Count: on(2), CountPerSecond: on(3), Mean: on(4), Median: on(5), StdDev: on(6), Sum: on(7), SumSquares: on(8),
+		LowerPct: on(9), UpperPct: on(10), CountPct: on(11), MeanPct: on(12), SumPct: on(13), SumSquaresPct: on(14)}
+}
+
+const (
+	plainBits = uint(0x1ff)
+	pctBits   = uint(0x3f) << 9
+	allBits   = plainBits | pctBits
+)
+
+// randomMask draws a disabled-sub-metrics mask and names its kind. Next to no mask and independent coin flips it
+// produces the extreme masks: everything off, every plain aggregation off with the percentile-derived ones on
+// (all or some of them), every percentile-derived one off, exactly one sub-metric on, exactly one off.
+func randomMask(rng *rand.Rand) (gostatsd.TimerSubtypes, string) {
+	switch k := rng.Intn(20); {
+	case k < 5:
+		return maskFromBits(0), "none"
+	case k < 7:
+		return maskFromBits(allBits), "all-off"
+	case k < 10:
+		return maskFromBits(plainBits), "plain-off/pct-on"
+	case k < 12:
+		// plain off, a non-empty proper subset of the percentile-derived ones on
+		sub := uint(1+rng.Intn(62)) << 9
+		return maskFromBits(plainBits | sub), "plain-off/some-pct-on"
+	case k < 13:
+		return maskFromBits(pctBits), "pct-off"
+	case k < 15:
+		i := uint(rng.Intn(15))
+		kind := "one-plain-on"
+		if i >= 9 {
+			kind = "one-pct-on"
+		}
+		return maskFromBits(allBits &^ (1 << i)), kind
+	case k < 16:
+		return maskFromBits(1 << uint(rng.Intn(15))), "one-off"
 	}
 	p := []int{4, 2}[rng.Intn(2)]
-	f := func() bool { return rng.Intn(p) == 0 }
-	return gostatsd.TimerSubtypes{Lower: f(), LowerPct: f(), Upper: f(), UpperPct: f(), Count: f(), CountPct: f(), CountPerSecond: f(), Mean: f(), MeanPct: f(), Median: f(), StdDev: f(), Sum: f(), SumPct: f(), SumSquares: f(), SumSquaresPct: f()}
+	var b uint
+	for i := uint(0); i < 15; i++ {
+		if rng.Intn(p) == 0 {
+			b |= 1 << i
+		}
+	}
+	return maskFromBits(b), "random"
 }
 
 type dpoint struct {
@@ -334,7 +373,12 @@ func (d dpoint) metric() *gostatsd.Metric {
 // newWorkload generates datapoints, pushes them through the real MetricMap.Receive / MetricAggregator and snapshots
 // the flushed map.
 func newWorkload(rng *rand.Rand) *workload {
-	w := &workload{Percentiles: pctLists[rng.Intn(len(pctLists))], Disabled: randomMask(rng), Rounds: 1}
+	w := &workload{Percentiles: pctLists[rng.Intn(len(pctLists))], Rounds: 1}
+	w.Disabled, w.MaskKind = randomMask(rng)
+	if strings.Contains(w.MaskKind, "pct-on") && len(w.Percentiles) == 0 {
+		// a mask that leaves only percentile-derived sub-metrics needs percentiles to say something
+		w.Percentiles = pctLists[1+rng.Intn(len(pctLists)-1)]
+	}
 	// bucket limit: 0, 1, 2, the default (MaxUint32) and a few in between
 	w.HistLimit = []uint32{0, 0, 1, 1, 2, 2, math.MaxUint32, math.MaxUint32, 3, 5}[rng.Intn(10)]
 	w.IntervalS = []float64{1, 10, 0.5, 60}[rng.Intn(4)]
